@@ -315,12 +315,15 @@ class NSGCoordinator(GameCoordinator):
         counter_iter = 0
         while not valid_valid_network_mapping:
             try:
-                # find the new lowest networks
-                new_base = netaddr.IPNetwork(f"{fake.ipv4_private()}/{private_nets_sorted[0].mask}")
-                # store its new mapping
-                mapping_nets[private_nets_sorted[0]] = Network(str(new_base.network), private_nets_sorted[0].mask)
+                # find the new lowest networks: all private networks are moved by the same distance, which is a
+                # multiple of the size of the largest of them, so each one stays aligned to its own prefix
                 base = netaddr.IPNetwork(str(private_nets_sorted[0]))
-                is_private_net_checks = []
+                widest_mask = min(net.mask for net in private_nets_sorted)
+                new_block = netaddr.IPNetwork(f"{fake.ipv4_private()}/{widest_mask}")
+                new_base_ip = new_block.network + (int(base.ip) - int(netaddr.IPNetwork(f"{base.ip}/{widest_mask}").network))
+                # store its new mapping
+                mapping_nets[private_nets_sorted[0]] = Network(str(new_base_ip), private_nets_sorted[0].mask)
+                is_private_net_checks = [new_base_ip.is_ipv4_private_use()]
                 for i in range(1,len(private_nets_sorted)):
                     current = netaddr.IPNetwork(str(private_nets_sorted[i]))
                     # find the distance before mapping
